@@ -8,7 +8,7 @@ package reddit
 //@ func AddCookies
 //@   property C10
 //@   opaque
-//@   sweep idx slice div assert
+//@   sweep idx slice div assert extnil
 
 // every other function of the package (helpers added later included)
-//@ sweepall C10 idx slice div assert
+//@ sweepall C10 idx slice div assert extnil
